@@ -6,6 +6,9 @@
 //	T3 go statements, errgroup.WithContext, (*errgroup.Group).Go/Wait, (*sync.WaitGroup).Add/Done/Wait -> simrt.*
 //	T4 range over a map -> range over simrt.MapKeys(site, m)
 //	T5 ethrpc.DialContext: prepend the in-process dial override
+//	T6 (*rpc.Client).CallContext inside pkg/ethrpc -> simrt.EngineCall(func() error { return <call> }): the
+//	   runtime learns which goroutine issues an engine request (one the scheduler owns, or one the
+//	   application or a dependency started behind its back)
 //
 // Usage: simrewrite -dir <copy of the repository> [-report file]
 // Exit status 0 on success; anything else means the copy must not be used.
@@ -262,6 +265,12 @@ func (r *rewriter) run() {
 				r.mark("T3", n, "errgroup.Wait")
 				n.Fun = simrtSel("GroupWait")
 				n.Args = []ast.Expr{addrOf(recv, isPtr)}
+			case pkgPath == "github.com/ethereum/go-ethereum/rpc" && typ == "Client" && method == "CallContext" && strings.HasSuffix(r.pkg.PkgPath, "pkg/ethrpc"):
+				r.mark("T6", n, "engine CallContext")
+				c.Replace(&ast.CallExpr{Fun: simrtSel("EngineCall"), Args: []ast.Expr{
+					&ast.FuncLit{Type: &ast.FuncType{Params: &ast.FieldList{}, Results: &ast.FieldList{List: []*ast.Field{{Type: ast.NewIdent("error")}}}},
+						Body: &ast.BlockStmt{List: []ast.Stmt{&ast.ReturnStmt{Results: []ast.Expr{n}}}}},
+				}})
 			case pkgPath == "sync" && typ == "WaitGroup" && (method == "Add" || method == "Done" || method == "Wait"):
 				r.mark("T3", n, "WaitGroup."+method)
 				n.Fun = simrtSel("WG" + method)
